@@ -4,6 +4,24 @@ import json, os, shutil, subprocess
 from .. import build, tlc, fsmat, runner
 from ..common import scratch, rng, ToolError
 
+def kernel_extents(path, maxn=2048):
+    """The file's whole extent list from ONE FS_IOC_FIEMAP request (independent of libfs' paging)."""
+    import fcntl, struct
+    FS_IOC_FIEMAP = 0xC020660B
+    hdr = struct.pack("=QQLLLL", 0, 0xFFFFFFFFFFFFFFFF, 0, 0, maxn, 0)
+    buf = bytearray(hdr + bytes(56 * maxn))
+    with open(path, "rb") as f:
+        try:
+            fcntl.ioctl(f.fileno(), FS_IOC_FIEMAP, buf)
+        except OSError:
+            return None
+    mapped = struct.unpack_from("=L", buf, 20)[0]
+    out = []
+    for i in range(mapped):
+        logical, physical, length = struct.unpack_from("=QQQ", buf, 32 + 56 * i)
+        out.append([logical, logical + length])
+    return out if mapped < maxn else None
+
 def nonzero_runs(path, gran=4096):
     """Minimal byte runs covering every non-zero byte, merged across granules only where the data is continuous."""
     runs = []
@@ -109,6 +127,10 @@ def run(ctx):
     if r.violated:
         ctx.model_violation("XcpMerge", r)
     lists = [v for t, v in r.printed if t == "LIST"]
+    fm = tlc.run("XcpFiemap", "MC_Fiemap.cfg", workers=4, timeout=1200)
+    ctx.tlc("XcpFiemap: paged extent fetch = the kernel's list, for all extent lists (touching included), page size 2", fm)
+    if fm.violated:
+        ctx.model_violation("XcpFiemap", fm)
     ctx.exhaustive = True
     # ---- spec -> impl: replay every list into the real merge_extents
     inp = "\n".join(json.dumps(l["inp"]) for l in lists) + "\n"
@@ -120,7 +142,8 @@ def run(ctx):
         ctx.violation("C19: merge_extents failed on enumerated input (exit %s, %d of %d results): %s" % (p.returncode, len(outs), len(lists), p.stderr[-300:]),
                       {"kind": "merge-crash", "stderr": p.stderr[-2000:]}, sig={"kind": "merge-crash"})
     for i, (l, o) in enumerate(zip(lists, outs)):
-        recs.append({"kind": "merge", "id": "m%d" % i, "inp": l["inp"], "out": o, "nz": [], "extents": [], "merged": [], "segments": [], "hasExtents": False})
+        recs.append({"kind": "merge", "id": "m%d" % i, "inp": l["inp"], "out": o, "nz": [], "extents": [], "merged": [], "segments": [], "hasExtents": False,
+                     "kext": [], "kextKnown": False})
     # ---- real files
     root = os.path.join(scratch(), "c19")
     os.makedirs(root, exist_ok=True)
@@ -137,7 +160,8 @@ def run(ctx):
             continue
         j = got[name]
         has = j["extents"] is not None
-        frecs.append({"kind": "file", "id": name, "inp": [], "out": [], "nz": nonzero_runs(files[name]),
+        kext = kernel_extents(files[name])
+        frecs.append({"kind": "file", "id": name, "inp": [], "out": [], "nz": nonzero_runs(files[name]), "kext": kext or [], "kextKnown": kext is not None,
                       "extents": [[e[0], e[1]] for e in (j["extents"] or [])], "merged": [[e[0], e[1]] for e in (j["merged"] or [])],
                       "segments": [s for s in j["segments"] if s[0] < s[1]], "hasExtents": has})
         ctx.sample({"file": name, "len": j["len"], "n_extents": len(j["extents"] or []), "n_merged": len(j["merged"] or []),
